@@ -78,8 +78,29 @@ def ctor_aliasing(chk):
                found=[f"{cls}.{m}: {how}; self.{a} is a view of the argument '{al[a][0]}'" for m, a, how, _ in hits][:3])
 
 
+def owned_buffers(chk):
+    """R<nn>.13: a buffer that methods fill in place is only ever bound to a fresh allocation."""
+    from ..effects import inplace_buffer_rebinding
+    rid = f"R{chk.pid[1:]}.13"
+    _, classes = SCOPES[chk.pid]
+    if not classes:
+        return
+    chk.rule(rid, "buffers filled in place are owned: an attribute that a method passes as out= / result= is only ever bound to a fresh allocation "
+                  "(bound to a view of other data - a cached table, an argument - the next in-place fill overwrites that data)", len(classes))
+    if not chk.want(rid):
+        return
+    for c in classes:
+        rel, cls = c[0], c[1]
+        mod = chk.repo.module(rel)
+        buffers, off = inplace_buffer_rebinding(mod, cls)
+        chk.ob(rid, rel, cls, f"in-place buffers {sorted(buffers) or 'none'} are bound to fresh allocations only", not off,
+               node=off[0][2] if off else None, fingerprint=f"owned-buffers:{cls}", expected="self.<buffer> = np.empty(...) once",
+               found=[f"{cls}.{m}: self.{a} = {v} (filled in place by {buffers[a]})" for m, a, _, v in off][:3])
+
+
 def run(chk):
     ctor_aliasing(chk)
+    owned_buffers(chk)
     rid = declare(chk)
     if chk.want(rid):
         mods, classes = SCOPES[chk.pid]
